@@ -211,33 +211,29 @@ fn c07_serve_chunk_step() {
 // C08-2: body accumulation step: one fragment / clean end / error from the
 // open request.
 // ---------------------------------------------------------------------------
-#[kani::proof]
-#[kani::unwind(4)]
-fn c08_chunk_reader_body_step() {
-    const K: usize = 2;
-    let (o, s, chunks) = any_chunks::<K>();
-    // the open request covers chunk 0 only or both
-    let r: usize = kani::any();
-    kani::assume(r >= 1 && r <= K);
+/// Every LENGTH is concrete per instance (chunk sizes, bytes already buffered, fragment length): BytesMut::extend
+/// is a per-byte reserve loop that only gets through the solver when its trip count is concrete.  Offsets (and so
+/// which bytes of the file are expected) are symbolic; the inner request's answer after the fragment is symbolic.
+fn chunk_reader_body_step(s0: usize, s1: usize, r: usize, have: usize, frag: u8) {
+    let o8: [u8; 2] = kani::any();
+    kani::assume(o8[0] < 40 && o8[1] < 40);
+    let o = [o8[0] as u64, o8[1] as u64];
+    let s = [s0, s1];
     kani::assume(r == 1 || o[0] + s[0] as u64 == o[1]);
     let total = if r == 2 { s[0] + s[1] } else { s[0] };
-    // bytes already buffered: fewer than the next chunk
-    let have: usize = kani::any();
-    kani::assume(have < s[0]);
+    let mut chunks = Vec::with_capacity(2);
+    chunks.push(ChunkOffset::new(o[0], s[0]));
+    chunks.push(ChunkOffset::new(o[1], s[1]));
     let base = o[0] as usize;
     let rb = builder();
     let mut buf = BytesMut::with_capacity(16);
     buf.extend_from_slice(&CONTENT[base..base + have]);
-    // the inner request answers: up to three fragments, clean end, error or Pending (contract of
-    // HttpRangeRequest established in proofs/range_request.rs: next bytes of the range, never beyond it)
-    // one data fragment of 1..2 bytes at most per poll (BytesMut::extend(Bytes) is a per-byte reserve loop that
-    // does not get through the solver for more), then clean end / Pending / error
-    let sc: [u8; 4] = kani::any();
-    kani::assume(sc[0] <= 2 || sc[0] == 9 || sc[0] == 10);
-    kani::assume(sc[1] == 0 || sc[1] == 9 || sc[1] == 10);
+    // first answer: a fragment of `frag` bytes (0 = none); then clean end / Pending / error
+    let after: u8 = kani::any();
+    kani::assume(after == 0 || after == 9 || after == 10);
     unsafe {
         rr::SCRIPTED = true;
-        rr::SCRIPT = [sc[0], sc[1], 9, 9];
+        rr::SCRIPT = if frag > 0 { [frag, after, 9, 9] } else { [after, 9, 9, 9] };
     }
     let mut cr = ChunkReader {
         request_builder: &rb,
@@ -252,44 +248,56 @@ fn c08_chunk_reader_body_step() {
     };
     let mut cx = noop_cx();
     let res = cr.poll_read(&mut cx);
-    let polls = unsafe { rr::SCRIPT_POS };
-    assert!(polls >= 1 && polls <= 2);
-    let last = sc[polls - 1];
+    let got = have + if (frag as usize) > total - have { total - have } else { frag as usize };
     match res {
         Poll::Ready(Some(Ok(b))) => {
             // exactly the next chunk, as soon as enough bytes are buffered
+            assert!(got >= s[0]);
             assert!(b.len() == s[0]);
             assert!(bytes_match(&b[..], &CONTENT[..], o[0] as usize));
-            assert!(last >= 1 && last <= 2);
             assert!(cr.chunk_index == 1 && cr.num_adjacent_reads == r - 1);
-            // what is left in the buffer are the following bytes of the run
+            // what is left in the buffer are the following bytes of the run, in order
+            assert!(cr.chunk_buf.len() == got - s[0]);
             assert!(bytes_match(&cr.chunk_buf[..], &CONTENT[..], o[0] as usize + s[0]));
-            kani::cover!(have > 0);
-            kani::cover!(cr.chunk_buf.len() > 0);
+            kani::cover!(true);
             std::mem::forget(b);
         }
         Poll::Ready(Some(Err(HttpReaderError::UnexpectedEnd))) => {
             // body ended (or errored: the script uses UnexpectedEnd as its error value) before the chunk was complete
-            assert!(last == 0 || last == 10);
+            assert!(got < s[0] && (after == 0 || after == 10));
             assert!(cr.chunk_index == 0);
-            kani::cover!(last == 0 && polls == 2);
         }
         Poll::Ready(Some(Err(e))) => {
             assert!(false, "no other error exists in this script");
             std::mem::forget(e);
         }
         Poll::Pending => {
-            assert!(last == 9);
+            assert!(got < s[0] && after == 9);
             // progress made before the Pending is kept, in order
+            assert!(cr.chunk_buf.len() == got);
             assert!(bytes_match(&cr.chunk_buf[..], &CONTENT[..], o[0] as usize));
-            assert!(cr.chunk_buf.len() >= have && cr.chunk_buf.len() < s[0]);
             assert!(cr.chunk_index == 0 && cr.num_adjacent_reads == r);
-            kani::cover!(cr.chunk_buf.len() > have);
         }
         _ => assert!(false),
     }
     std::mem::forget(cr);
 }
+macro_rules! body_step {
+    ($name:ident, $s0:expr, $s1:expr, $r:expr, $have:expr, $frag:expr) => {
+        #[kani::proof]
+        #[kani::unwind(6)]
+        fn $name() {
+            chunk_reader_body_step($s0, $s1, $r, $have, $frag);
+        }
+    };
+}
+// (s0, s1, run length, bytes already buffered, fragment length)
+body_step!(c08_body_step_s2_s3_r2_h0_f1, 2, 3, 2, 0, 1); // fragment ends inside the first chunk
+body_step!(c08_body_step_s2_s3_r2_h1_f1, 2, 3, 2, 1, 1); // fragment completes the first chunk exactly
+body_step!(c08_body_step_s2_s3_r2_h1_f3, 2, 3, 2, 1, 3); // fragment spans into the second chunk
+body_step!(c08_body_step_s2_s3_r2_h0_f5, 2, 3, 2, 0, 5); // whole run in one fragment
+body_step!(c08_body_step_s3_s1_r1_h2_f2, 3, 1, 1, 2, 2); // single-chunk run, server fragment clamped to the range
+body_step!(c08_body_step_s3_s1_r1_h1_f0, 3, 1, 1, 1, 0); // no data: end / Pending / error right away
 
 // ---------------------------------------------------------------------------
 // C08-3: `read_at`: exactly `size` bytes of the range or an error
